@@ -32,6 +32,9 @@ def ref_class(ttype, value):
                  'DECLARE': 'declare', 'WHEN': 'when', 'THEN': 'then', 'ELSE': 'else', 'ELSIF': 'elsif', 'DO': 'do'}
         if norm in table:
             return table[norm]
+        first = norm.split()[0]
+        if ' ' in norm and first in ('IF', 'FOR', 'WHILE', 'LOOP', 'CASE', 'BEGIN', 'DECLARE'):
+            return table[first]       # a multi-word keyword token that starts with a block opener opens that block
         if norm.split()[0] == 'GO' and ttype is T.Keyword:
             return 'go'
         if ttype is T.Keyword.DDL and norm.startswith('CREATE'):
